@@ -9,6 +9,10 @@ pub enum SOp {
     IdsVals,
     /// next_chunk(n), consume k, drop
     Chunk(usize, usize),
+    /// next_chunk(n), consumed through another Iterator method (mode: 0/1/9 = nth(0/1/9), 20 = count, 21 = last, 22 = skip(1) + collect)
+    ChunkVia(usize, usize),
+    /// buffered next, consumed through another Iterator method (same modes)
+    BufVia(usize),
     /// next_chunk(n) kept in a slot (borrows the iterator shared)
     Hold(usize),
     HeldNext(usize),
@@ -92,6 +96,8 @@ impl SOp {
             SOp::Vals => "V".into(),
             SOp::IdsVals => "W".into(),
             SOp::Chunk(n, k) => format!("C{}:{}", size(n), num(k)),
+            SOp::ChunkVia(n, m) => format!("CV{}:{}", size(n), m),
+            SOp::BufVia(m) => format!("BV{m}"),
             SOp::Hold(n) => format!("HC{}", size(n)),
             SOp::HeldNext(k) => format!("HN{}", num(k)),
             SOp::HeldDrop => "HD".into(),
@@ -139,6 +145,11 @@ impl SOp {
                     SOp::Sel(parse_num(r)?)
                 } else if let Some(r) = p("GET") {
                     SOp::Get(parse_num(r)?)
+                } else if let Some(r) = p("CV") {
+                    let (n, m) = r.split_once(':').ok_or(format!("bad op '{s}'"))?;
+                    SOp::ChunkVia(parse_num(n)?, parse_num(m)?)
+                } else if let Some(r) = p("BV") {
+                    SOp::BufVia(parse_num(r)?)
                 } else if let Some(r) = p("HC") {
                     SOp::Hold(parse_num(r)?)
                 } else if let Some(r) = p("HN") {
